@@ -123,9 +123,32 @@ func (ms *metaStore) deleteMeta(path metaPath) error {
 }
 
 func (ms *metaStore) deleteBucket(bucket string) error {
-	if err := ms.fs.RemoveAll(bucket); os.IsNotExist(err) {
+	if err := removeDir(ms.fs, bucket); os.IsNotExist(err) {
 		return nil
 	} else {
 		return err
 	}
+}
+
+// removeDir removes the directory dir and everything in it, entry by entry.
+// It stands in for Fs.RemoveAll, which afero's MemMapFs implements as "remove
+// every path that starts with this string": asked for "data" it also removes
+// "data-archive".
+func removeDir(fs afero.Fs, dir string) error {
+	entries, err := afero.ReadDir(fs, dir)
+	if err != nil {
+		return err
+	}
+	for _, entry := range entries {
+		entryPath := filepath.Join(dir, entry.Name())
+		if entry.IsDir() {
+			err = removeDir(fs, entryPath)
+		} else {
+			err = fs.Remove(entryPath)
+		}
+		if err != nil && !os.IsNotExist(err) {
+			return err
+		}
+	}
+	return fs.Remove(dir)
 }
